@@ -57,6 +57,14 @@ def _keeps_reading(facts, vtxt):
     return False
 
 
+def _holds_permit(facts, ty):
+    """the type is a permit, an Option of one, or a small in-crate struct that owns one (a slot guard bundling the permit with a gauge)"""
+    if "OwnedSemaphorePermit" in ty:
+        return True
+    a = facts.adts.get(ty.replace("&mut ", "").lstrip("&").split("<")[0])
+    return bool(a) and a.get("kind") == "struct" and any("OwnedSemaphorePermit" in (f.get("ty") or "") for f in a["variants"][0]["fields"])
+
+
 def run(facts, R):
     b = facts.body(SOR)
     s = Sym(b)
@@ -190,7 +198,7 @@ def run(facts, R):
     if worker is not None:
         ws = Sym(worker)
         # permit bound to a local for the closure's whole run: no drop()/forget()/move of it
-        pl = [l for l in range(len(worker.locals)) if "OwnedSemaphorePermit" in worker.local_ty(l)]
+        pl = [l for l in range(len(worker.locals)) if _holds_permit(facts, worker.local_ty(l))]
         bad = []
         for i, bl in enumerate(worker.blocks):
             t = bl["term"]
@@ -311,6 +319,7 @@ def run(facts, R):
                 sems.append((bb, i, t))
     # (one source site may be seen twice once a constructor helper and its closure were spliced into the connection function)
     seen_sp = set()
+    sems = sorted(sems, key=lambda x: 0 if x[0].path.startswith(hc.path) else 1)      # (keep the connection function's copy of a source site)
     sems = [x for x in sems if not (x[2].get("span") in seen_sp or seen_sp.add(x[2].get("span")))]
     ok = len(sems) == 1 and sems[0][0].path.startswith(hc.path)
     R.check(ok, "permit-before-spawn", "<crate>", "one Semaphore::new per connection", "Semaphore::new sites: %s" % [x[0].path for x in sems], None, "inside handle_connection_with_config")
@@ -351,7 +360,7 @@ def run(facts, R):
             if not runs_handler:
                 continue
             n_sp += 1
-            holds = any("OwnedSemaphorePermit" in sb_.local_ty(l_) for sb_ in sub[:1] for l_ in range(len(sb_.locals)))
+            holds = any(_holds_permit(facts, sb_.local_ty(l_)) for sb_ in sub[:1] for l_ in range(len(sb_.locals)))
             R.check(holds, "permit-before-spawn", b_.path, "a spawned handler run holds a permit for its whole run",
                     "%s spawns a task that runs a handler, and the spawned closure owns no OwnedSemaphorePermit: whatever permit the spawning function took is "
                     "released when that function returns, so any number of such handlers run at once regardless of the off-reader cap"
@@ -372,7 +381,7 @@ def run(facts, R):
                     "the cap is not enforced on this path; ways in: %s" % [[f_["text"][-50:] for f_ in fs_][-3:] for fs_ in alts_][:3],
                     t_.get("span"), "spawn only on the None / Ok edges")
             wk_ = sub[0]
-            pl_ = [l_ for l_ in range(len(wk_.locals)) if "OwnedSemaphorePermit" in wk_.local_ty(l_)]
+            pl_ = [l_ for l_ in range(len(wk_.locals)) if _holds_permit(facts, wk_.local_ty(l_))]
             moved = [(t2["callee"]["path"]) for _, t2 in wk_.calls() for o_ in t2["args"] if "move" in o_ and not o_["move"]["p"] and o_["move"]["l"] in pl_]
             R.check(not moved, "permit-before-spawn", wk_.path, "permit held to the end of the handler run (derived site)",
                     "the permit is released early / handed away: %s" % moved, wk_.span, "permit is a closure local dropped at scope end")
